@@ -74,15 +74,10 @@ def _family(thorough: bool) -> list[_N]:
     return out
 
 
-def rule_tree_sem(ctx: RuleContext, p: Program, rid: str) -> None:
+def tree_interp(p: Program, registered: Optional[set] = None) -> tuple:
+    """the interpreter class for the tree-building half of ModelBuilder over mock lark trees / tokens (shared by TREE-SEM and GRAM-REG); with
+    `registered`, TREE_MODELS[name] raises KeyError for a name outside that set, as the real table does"""
     from .c01 import builder_interp
-    ctx.rule(rid, 'ModelBuilder.build with _build_tree / _build_required_node / _build_repeated_node / _build_placeholder (and the token half underneath), '
-                  'interpreted on mock parse results (trees of leaves, absent optionals, repeated sections of 0..2 items, the indent rule, dropped '
-                  'sub-trees, nested trees; gap tokens between the leaves): the model mirrors the parse tree child by child (None keeps its '
-                  'position, a dropped sub-tree takes none, one Repeated per section with exactly its items); the single insertion into the store '
-                  'reads, place-holders aside, as every lexer token with text once and in order; every leaf of the model is one of the inserted '
-                  'objects and the leaves occur there in tree order, the place-holder of a section after what precedes the section and before its '
-                  'items; tree models and Repeated get the builder\'s own store')
     mb = p.cls('ModelBuilder', 'parser')
     Base, ts, m, _ign = builder_interp(p, mb)
     build = p.method(mb, 'build', inherited=False)
@@ -106,8 +101,21 @@ def rule_tree_sem(ctx: RuleContext, p: Program, rid: str) -> None:
                     return possem.Obj('PlaceholderClass', {}, 'Placeholder')
             if isinstance(e, ast.Call) and norm(e.func) in ('models.TokenStore.from_tokens', 'TokenStore.from_tokens', 'base.TokenStore.from_tokens'):
                 return possem.Obj('Store', {'log': []}, 'another store')
+            # a lark.Token IS a str (a subclass carrying type and position): str(token) and the str methods give / work on its text
+            if isinstance(e, ast.Call) and isinstance(e.func, ast.Name) and e.func.id == 'str' and 'str' not in env and len(e.args) == 1 and not e.keywords:
+                v_ = self.expr(e.args[0], env)
+                if isinstance(v_, possem.Obj) and v_.cls == 'LarkToken':
+                    return v_.f['value']
+            if isinstance(e, ast.Attribute) and not e.attr.startswith('_') and hasattr(str, e.attr) and e.attr not in ('type', 'value') \
+                    and not (isinstance(e.value, ast.Name) and e.value.id not in env):
+                v_ = self.expr(e.value, env)
+                if isinstance(v_, possem.Obj) and v_.cls == 'LarkToken':
+                    return getattr(v_.f['value'], e.attr)
             if isinstance(e, ast.Subscript) and norm(e.value) in ('models.TREE_MODELS', 'TREE_MODELS'):
-                return possem.Obj('TreeClass', {'rule': self.expr(e.slice, env)}, 'tree model class')
+                k_ = self.expr(e.slice, env)
+                if registered is not None and k_ not in registered:
+                    raise possem.Raised(f'KeyError: {k_!r}')
+                return possem.Obj('TreeClass', {'rule': k_}, 'tree model class')
             if isinstance(e, ast.Call) and norm(e.func) == 'isinstance' and len(e.args) == 2:
                 t = norm(e.args[1])
                 if t in ('lark.Tree', 'Tree', 'lark.Token', 'Token', 'lark.tree.Tree', 'lark.lexer.Token', 'lexer.Token'):
@@ -152,6 +160,39 @@ def rule_tree_sem(ctx: RuleContext, p: Program, rid: str) -> None:
                 return True
             return super().truth(v, node)
 
+    return Interp, ts, m, _ign, build, mb
+
+
+def unhandled_tree_names(p: Program, names: list, registered: set) -> dict:
+    """for every rule name that can appear as tree.data without being a registered tree model: _build_tree, interpreted on a tree that has a
+    sub-tree of that name as its only child, either handles it (a Repeated, an indent, dropped, ...) or fails with the KeyError of the model table"""
+    Interp, ts, m, _ign, build, mb = tree_interp(p, registered | {'ROOT'})
+    bt = mb.lookup('_build_tree')
+    out: dict = {}
+    for r in names:
+        mark = possem.Obj('LarkToken', {'type': 'EOL', 'value': ''}, 'mark')
+        toks = [possem.Obj('LarkToken', {'type': '_NEWLINE', 'value': '\n'}, 'nl'), possem.Obj('LarkToken', {'type': 'INDENT', 'value': '  '}, 'indent'), mark]
+        sub = possem.Obj('LarkTree', {'data': r, 'children': [mark]}, r)
+        tree = possem.Obj('LarkTree', {'data': 'ROOT', 'children': [sub]}, 'root')
+        me = possem.Obj('ModelBuilder', {'_tokens': list(toks), '_built_tokens': [], '_cursor': 0, '_token_store': possem.Obj('Store', {'log': []}, 'store'),
+                                         '_token_to_index': {id(t): i for i, t in enumerate(toks)}}, 'builder')
+        try:
+            Interp(ts, [], module=m).call_function(bt, [me, tree], {})
+        except possem.Raised as ex:
+            if 'KeyError' in str(ex):
+                out[r] = str(ex)
+    return out
+
+
+def rule_tree_sem(ctx: RuleContext, p: Program, rid: str) -> None:
+    ctx.rule(rid, 'ModelBuilder.build with _build_tree / _build_required_node / _build_repeated_node / _build_placeholder (and the token half underneath), '
+                  'interpreted on mock parse results (trees of leaves, absent optionals, repeated sections of 0..2 items, the indent rule, dropped '
+                  'sub-trees, nested trees; gap tokens between the leaves): the model mirrors the parse tree child by child (None keeps its '
+                  'position, a dropped sub-tree takes none, one Repeated per section with exactly its items); the single insertion into the store '
+                  'reads, place-holders aside, as every lexer token with text once and in order; every leaf of the model is one of the inserted '
+                  'objects and the leaves occur there in tree order, the place-holder of a section after what precedes the section and before its '
+                  'items; tree models and Repeated get the builder\'s own store')
+    Interp, ts, m, _ign, build, mb = tree_interp(p)
     cases = 0
     problem = ''
     ign_type = sorted(_ign)[0] if _ign else 'WHITESPACE'      # a dropped sub-tree holds zero-width marks or tokens of an %ignore'd type
@@ -179,7 +220,7 @@ def rule_tree_sem(ctx: RuleContext, p: Program, rid: str) -> None:
                 if n.kind == 'tok':
                     gap()
                     counter[0] += 1
-                    n.text = f'T{counter[0]}'
+                    n.text = f'T{counter[0]}' + ('_' if counter[0] % 2 else '')      # a tag may end with an underscore (#trip_): the text of a token is not a rule name
                     return tok('ACCOUNT', n.text)
                 if n.kind == 'none':
                     return None
